@@ -20,7 +20,7 @@ broken_q = [[t, p] for t in (0, 1, 3, 7, 8, 12, 13, 17, 23, 25, 29) for p in ran
 broken_t = [[t, p] for t in range(N) for p in range(0, 20)]
 spec = {
  "property": "C18", "level": "model_checking",
- "time_budget_s": {"quick": 400, "thorough": 3600},
+ "time_budget_s": {"quick": 900, "thorough": 5400},
  "units": [{"name": "equal", "pkg": "github.com/ogen-go/ogen/json", "dir": "json", "harness": ["harness_equal.go"],
    "cases": {"quick": [{"entry": "HPair", "args": pairs_q}, {"entry": "HTriple", "args": triples_q}, {"entry": "HBroken", "args": broken_q}],
              "thorough": [{"entry": "HPair", "args": pairs_t}, {"entry": "HTriple", "args": triples_t}, {"entry": "HBroken", "args": broken_t}]}},
